@@ -18,6 +18,7 @@ pub fn plan() -> Plan {
         soft_s: (22, 420),
         exhaustive: None,
         min_evaluations: 200,
+        extra: None,
     }
 }
 
